@@ -51,9 +51,11 @@ fn main() {
     let args = parse_args();
     std::fs::create_dir_all(&args.out).ok();
     let rc = match args.prop.as_str() {
+        "c11" => props::c11::run(&args),
         "c15" => props::c15::run(&args),
         "c16" => props::c16::run(&args),
         "ind" => props::ind::run(&args),
+        "dump" => props::dump::run(&args),
         other => {
             eprintln!("unknown property harness {other}");
             2
